@@ -318,10 +318,11 @@ class SoupClientSessionSync:
         So we inject a close_coro to close the session when the on_close_coro is called.
         """
         async def on_close_coro() -> None:
-            with self.close_lock:
-                if not self.closed_event.is_set():
-                    self.bridge.stop(join=False)
-                    self.closed_event.set()
+            # runs on the executor's loop thread: must never wait for close_lock, a caller
+            # may hold it while waiting for this very loop
+            if not self.closed_event.is_set():
+                self.bridge.stop(join=False)
+                self.closed_event.set()
         self.session.on_close_coro = on_close_coro
 
     def receive(self):
@@ -337,16 +338,18 @@ class SoupClientSessionSync:
         self.bridge.execute_sync(self.session.send_unseq_data, data)
 
     def logout(self):
-        with self.close_lock:
-            if not self.closed_event.is_set():
-                self.bridge.execute_sync(self.session.logout)
-        self.closed_event.wait()
-        self.bridge.join()
+        self._shutdown(self.session.logout)
 
     def close(self):
+        self._shutdown(self.session.initiate_close)
+
+    def _shutdown(self, initiate):
         with self.close_lock:
             if not self.closed_event.is_set():
-                self.bridge.execute_sync(self.session.initiate_close)
+                try:
+                    self.bridge.execute_sync(initiate)
+                except common.StateError:
+                    pass  # the executor stopped meanwhile: the session is already closing by itself
         self.closed_event.wait()
         self.bridge.join()
 
